@@ -31,11 +31,12 @@ type Ops struct {
 	G16DeclaredLens  func(b []byte) []uint32
 
 	// PLONK
-	PlonkClone       func(p any) any
-	PlonkSingleEdits func(p any, donors []any, vk any) []Edit
-	PlonkListEdits   func(p any, donors []any) []Edit
-	PlonkProofEqual  func(a, b any) bool
-	PlonkNbQcp       func(vk any) int
+	PlonkClone        func(p any) any
+	PlonkSingleEdits  func(p any, donors []any, vk any) []Edit
+	PlonkListEdits    func(p any, donors []any) []Edit
+	PlonkProofEqual   func(a, b any) bool
+	PlonkNbQcp        func(vk any) int
+	PlonkDeclaredLens func(b []byte) []uint32
 
 	// extended per-property entry points are added as separate fields below
 	Ext map[string]any
